@@ -172,12 +172,13 @@ Proof.
   intros [cn [Hc [Hs Hg]]] Ha. cbn [step]. unfold with_session. rewrite Hc, Hs, Hg, Ha. reflexivity.
 Qed.
 
-(* C08: transient data writes without the permission are refused and change nothing *)
+(* C08: transient data writes (kindn 0 = set, 1 = remove) without the permission are refused and change nothing *)
 Lemma transient_gate h c sid s k kindn key val :
-  conn_session h c sid s -> s.(s_room) = Some k -> allowed_transient s = false ->
+  conn_session h c sid s -> s.(s_room) = Some k -> allowed_transient s = false -> (kindn <? 2) = true ->
   step h (OTransient c kindn key val) = (h, [ToConn c (SError E_not_allowed)]).
 Proof.
-  intros [cn [Hc [Hs Hg]]] Hr Ha. cbn [step]. unfold with_session. rewrite Hc, Hs, Hg, Hr, Ha. reflexivity.
+  intros [cn [Hc [Hs Hg]]] Hr Ha Hk. cbn [step]. unfold with_session. rewrite Hc, Hs, Hg, Hr, Ha.
+  rewrite N.leb_antisym, Hk. reflexivity.
 Qed.
 
 (* C19: virtual-session requests from ordinary clients do nothing *)
